@@ -160,7 +160,41 @@ VARIABLES l, cur, g, ge, g12, nd, nv, vseen
 
 vars == <<l, cur, g, ge, g12, nd, nv, vseen>>
 
-G12Init == [processed |-> [c \in Clients |-> <<>>]]     \* per client: tick |-> mutate messages processed so far
+G12Init == [processed |-> [c \in Clients |-> <<>>],     \* per client: tick |-> mutate messages processed so far
+            \* C11 (re-sending): content of every mutate message sent, values sent reliably, values acknowledged
+            sentM |-> [c \in Clients |-> <<>>], rel |-> [c \in Clients |-> {}], acked |-> [c \in Clients |-> {}]]
+
+(* C11, the re-sending half, on observations only: in every tick in which replication runs, each current value of
+   a continuously replicated component of an entity the server has established for the client is either
+   covered - it travelled in an update message (reliable), or in a mutate message the client acknowledged - or
+   it is in this tick's messages.  Values are version counters, so <<e, k, v>> names one write.  (The relation
+   component is left out: its values are names, not numbers.) *)
+Triples(ents) == UNION {{<<e, k, ents[e][k]>> : k \in (DOMAIN ents[e]) \ {P!REL}} : e \in DOMAIN ents}
+SentTo(r, c, ch) == {x.m : x \in {y \in ToSet(r.obs.sent) : y.c = c /\ y.ch = ch}}
+G11Step(b, r, old) ==
+    IF r.ev = "SrvFrame"
+    THEN [b EXCEPT
+            !.acked = [c \in Clients |->
+                         @[c] \cup UNION {UNION {IF i \in DOMAIN b.sentM[c] THEN b.sentM[c][i] ELSE {} : i \in ToSet(a)}
+                                          : a \in ToSet(old.net[c].srxAck)}],
+            !.sentM = [c \in Clients |->
+                         [i \in (DOMAIN @[c]) \cup {m.idx : m \in SentTo(r, c, "mut")} |->
+                             LET new == {m \in SentTo(r, c, "mut") : m.idx = i}
+                             IN IF new # {} THEN Triples((CHOOSE m \in new : TRUE).ents) ELSE @[c][i]]],
+            !.rel = [c \in Clients |-> @[c] \cup UNION {Triples(m.chg) : m \in SentTo(r, c, "upd")}]]
+    ELSE IF r.ev \in {"Connect", "Disconnect", "LoseToConnecting"}
+    THEN [b EXCEPT !.sentM[r.args.c] = <<>>, !.rel[r.args.c] = {}, !.acked[r.args.c] = {}]
+    ELSE b
+
+C11_MustSend(r, old, obs, b) ==      \* b: the ghost after G11Step of this frame
+    \A c \in Clients :
+        (old.srv.cl[c].conn /\ old.srv.cl[c].auth /\ obs.srv.cl[c].conn /\ obs.srv.cl[c].auth) =>
+            LET now == UNION {Triples(m.ents) : m \in SentTo(r, c, "mut")} \cup UNION {Triples(m.chg) : m \in SentTo(r, c, "upd")}
+            IN \A e \in (DOMAIN obs.srv.cl[c].mutTick) \cap P!ReplEnts(obs.srv) :
+                  P!IsVisible(obs.srv.cl[c].vis, e) =>
+                     \A k \in {x \in DOMAIN obs.srv.world[e].comps : x # P!REL /\ P!Rate(x) = "every"} :
+                        LET t == <<e, k, obs.srv.world[e].comps[k].val>>
+                        IN t \in b.rel[c] \/ t \in b.acked[c] \/ t \in now
 
 Init == l = 1 /\ cur = P!InitStateE /\ g = P!GhostInit /\ ge = P!EvGhostInit /\ g12 = G12Init /\ nd = 0 /\ nv = 0 /\ vseen = {}
 
@@ -236,7 +270,7 @@ C12_E2E(old, obs, gg, c) ==
 Violations(r, old, obs, gg, gePre, geNew, gg12) ==
     {p \in {"C01", "C02", "C02mono", "C03", "C03mono", "C08data", "C08query", "C11rest", "panic",
             "C04stamp", "C04delivery", "C05recipients", "C05delivery", "C05complete", "C05server", "C05serverComplete",
-            "C07unauth", "C16", "C12e2e"} :
+            "C07unauth", "C16", "C12e2e", "C11must"} :
         CASE p = "C01"      -> r.ev = "Quiesce" /\ ~P!C01_AtQuiescence(obs)
           [] p = "C02"      -> ~P!C02(obs, gg)
           [] p = "C02mono"  -> r.ev # "Init" /\ ~P!C02_MonoStep(old, obs)
@@ -246,6 +280,7 @@ Violations(r, old, obs, gg, gePre, geNew, gg12) ==
           [] p = "C08query" -> ~P!C08_Query(obs, gg)
           [] p = "C11rest"  -> r.ev = "AtRest" /\ ~P!C11_SilentAtRest(gg)
           [] p = "C16"      -> ~P!C16(obs, gg)
+          [] p = "C11must"  -> r.ev = "SrvFrame" /\ r.post.srv.ran /\ ~C11_MustSend(r, old, obs, G11Step(gg12, r, old))
           [] p = "C12e2e"   -> Cfg.track /\ r.ev = "CliFrame" /\ old.cli[r.args.c].status = "Connected"
                                /\ ~C12_E2E(old, obs, gg12, r.args.c)
           [] p = "C04stamp" -> r.ev = "SrvFrame" /\ ~P!C04_Stamp(obs, SentEv(r))
@@ -304,14 +339,15 @@ Step ==
                /\ cur' = obs
                /\ g' = g1
                /\ ge' = ge1
-               /\ g12' = LET b == IF isInit THEN G12Init ELSE g12
+               /\ g12' = LET b == G11Step(IF isInit THEN G12Init ELSE g12, r, base)
                           IN IF r.ev = "CliFrame" /\ Cfg.track
                              THEN IF obs.cli[r.args.c].status # "Connected" \/ base.cli[r.args.c].status # "Connected"
                                   THEN [b EXCEPT !.processed[r.args.c] = <<>>]
                                   ELSE [b EXCEPT !.processed[r.args.c] =
                                           [T \in (DOMAIN @) \cup TicksSeen(base, r.args.c) |->
                                               (IF T \in DOMAIN @ THEN @[T] ELSE 0) + Processed(base, obs, r.args.c, T)]]
-                             ELSE IF r.ev \in {"Disconnect", "Stop"} THEN G12Init ELSE b
+                             ELSE IF r.ev = "Stop" THEN G12Init
+                             ELSE IF r.ev = "Disconnect" THEN [b EXCEPT !.processed = G12Init.processed] ELSE b
     /\ l' = l + 1
 
 Spec == Init /\ [][Step]_vars
